@@ -1794,6 +1794,9 @@ namespace bloch::runtime {
             // A destructor may run while a 'return' is unwinding the scopes around it; calls
             // made by the destructor body use the return slot themselves.
             Value savedReturnValue = m_returnValue;
+            // ... and a returned qubit handle stays a root while it is parked here
+            std::vector<Value> parkedReturn{savedReturnValue};
+            PendingArgsGuard parkedReturnRoot(m_pendingArgs, &parkedReturn);
             for (RuntimeClass* cur = obj->cls; cur; cur = cur->base) {
                 if (!cur->destructorDecl || !cur->destructorDecl->body)
                     continue;
@@ -2560,6 +2563,25 @@ namespace bloch::runtime {
         }
     }
 
+    // The value of 'new A().q', 'mk().getQ()' or 'first(new A())' is a qubit handle whose owner
+    // may die with the temporaries of the expression. Those temporaries are released here, while
+    // the handle counts as a root: a destructor that runs now and declares a qubit must not be
+    // given the index the handle still names.
+    Value RuntimeEvaluator::settleResult(Value result, std::vector<Value>* args, Value* temporary,
+                                         std::shared_ptr<Object>* receiver) {
+        if (result.type != Value::Type::Qubit && result.type != Value::Type::QubitArray)
+            return result;
+        std::vector<Value> inFlight{result};
+        PendingArgsGuard resultRoot(m_pendingArgs, &inFlight);
+        if (receiver)
+            receiver->reset();
+        if (temporary)
+            *temporary = Value{};
+        if (args)
+            args->clear();
+        return result;
+    }
+
     Value RuntimeEvaluator::eval(Expression* e) {
         if (!e)
             return {};
@@ -3017,8 +3039,10 @@ namespace bloch::runtime {
                     obj.objectValue->cls ? findInstanceField(obj.objectValue->cls, memAcc->member)
                                          : nullptr;
                 if (instField) {
-                    if (instField->offset < obj.objectValue->fields.size())
-                        return obj.objectValue->fields[instField->offset];
+                    if (instField->offset < obj.objectValue->fields.size()) {
+                        Value res = obj.objectValue->fields[instField->offset];
+                        return settleResult(std::move(res), nullptr, &obj, nullptr);
+                    }
                 } else {
                     auto [staticField, owner] =
                         obj.objectValue->cls
@@ -3475,7 +3499,7 @@ namespace bloch::runtime {
                     if (fit->second->hasQuantumAnnotation && res.type == Value::Type::Bit) {
                         m_measurements[e].push_back(res.bitValue);
                     }
-                    return res;
+                    return settleResult(std::move(res), &args, nullptr, nullptr);
                 }
                 RuntimeMethod* method = nullptr;
                 RuntimeClass* staticCls = m_currentClassCtx;
@@ -3497,7 +3521,8 @@ namespace bloch::runtime {
                                 method = vit->second;
                         }
                     }
-                    return callMethod(method, staticCls, receiver, args);
+                    Value res = callMethod(method, staticCls, receiver, args);
+                    return settleResult(std::move(res), &args, nullptr, &receiver);
                 }
             } else if (auto member =
                            dynamic_cast<MemberAccessExpression*>(callExpr->callee.get())) {
@@ -3546,7 +3571,8 @@ namespace bloch::runtime {
                         method = findMethod(staticCls, member->member, &args);
                 }
                 if (method) {
-                    return callMethod(method, staticCls, receiver, args);
+                    Value res = callMethod(method, staticCls, receiver, args);
+                    return settleResult(std::move(res), &args, &target, &receiver);
                 }
             }
         } else if (auto idx = dynamic_cast<MeasureExpression*>(e)) {
@@ -3560,6 +3586,12 @@ namespace bloch::runtime {
             return {Value::Type::Bit, 0, 0.0, bit};
         } else if (auto indexExpr = dynamic_cast<IndexExpression*>(e)) {
             Value coll = eval(indexExpr->collection.get());
+            // the register is only a local copy while the index expression runs (it may call
+            // code that drops the register's owner and declares new qubits)
+            std::vector<Value> collInFlight;
+            if (coll.type == Value::Type::QubitArray)
+                collInFlight.push_back(coll);
+            PendingArgsGuard collRoot(m_pendingArgs, &collInFlight);
             Value idxv = eval(indexExpr->index.get());
             int idxi = 0;
             if (idxv.type == Value::Type::Int)
